@@ -13,6 +13,7 @@ import (
 	"go/token"
 	"go/types"
 	"sort"
+	"strings"
 
 	"golang.org/x/tools/go/ssa"
 )
@@ -32,19 +33,59 @@ func ruleR08e(c *Ctx, rule string) {
 	}
 	// types for which the returned address is not the value: constant-typed returns of VisitExpr itself
 	partial := map[int64]string{}
-	for _, b := range visitExpr.Blocks {
-		for _, ins := range b.Instrs {
-			r, ok := ins.(*ssa.Return)
-			if !ok || len(r.Results) != 3 {
-				continue
-			}
-			if k, ok := r.Results[0].(*ssa.Const); ok {
-				if n, ok := constInt64Of(k); ok && n != 0 {
-					partial[n] = typeConstName(c, n)
+	var collect func(fn *ssa.Function, depth int)
+	collect = func(fn *ssa.Function, depth int) {
+		for _, b := range fn.Blocks {
+			for _, ins := range b.Instrs {
+				r, ok := ins.(*ssa.Return)
+				if !ok || len(r.Results) != 3 {
+					continue
+				}
+				if k, ok := r.Results[0].(*ssa.Const); ok {
+					if n, ok := constInt64Of(k); ok && n != 0 {
+						partial[n] = typeConstName(c, n)
+					}
+					continue
+				}
+				for _, root := range roots(r.Results[0], nil) {
+					ex, ok := root.(*ssa.Extract)
+					if !ok || ex.Index != 0 {
+						continue
+					}
+					call, ok := ex.Tuple.(*ssa.Call)
+					if !ok {
+						continue
+					}
+					g := staticCallee(call)
+					switch {
+					case g == nil:
+					case g == visitExpr || origin(g) == visitExpr:
+						// the type of a sub-expression handed on (`return lhsType, …`): the constants it was compared with
+						if fn == visitExpr {
+							continue
+						}
+						for _, rr := range *ex.Referrers() {
+							if bo, ok := rr.(*ssa.BinOp); ok && (bo.Op == token.EQL || bo.Op == token.NEQ) {
+								other := bo.X
+								if other == ssa.Value(ex) {
+									other = bo.Y
+								}
+								if k, ok := other.(*ssa.Const); ok {
+									if n, ok := constInt64Of(k); ok && n != 0 {
+										partial[n] = typeConstName(c, n)
+									}
+								}
+							}
+						}
+					case depth < 2 && fnPkgPath(origin(g)) == pkgCompiler && len(g.Blocks) > 0 && visitsOperands(g):
+						// a helper compiling the compound form (it visits a left and a right operand)
+						collect(g, depth+1)
+					}
 				}
 			}
 		}
 	}
+	collect(visitExpr, 0)
 	if len(partial) == 0 {
 		c.undecided(rule, "anchor:VisitExpr-compound-types", visitExpr.Pos(), "VisitExpr has no constant-typed return: the types of compound expressions could not be read")
 		return
@@ -274,4 +315,21 @@ func nextIsOpAsset(call *ssa.Call, appendIns *ssa.Function, opAsset int64) bool 
 		}
 	}
 	return false
+}
+
+// visitsOperands: fn asks a parse-tree node for its left or right operand (GetLhs / GetRhs).
+func visitsOperands(fn *ssa.Function) bool {
+	found := false
+	allCalls(fn, func(ci ssa.CallInstruction) {
+		n := ""
+		if ci.Common().IsInvoke() {
+			n = ci.Common().Method.Name()
+		} else if g := staticCallee(ci); g != nil {
+			n = origName(g)
+		}
+		if strings.HasSuffix(n, "GetLhs") || strings.HasSuffix(n, "GetRhs") {
+			found = true
+		}
+	})
+	return found
 }
